@@ -10,6 +10,7 @@
 package main
 
 import (
+	"encoding/json"
 	"fmt"
 	"os"
 	"runtime/debug"
@@ -210,7 +211,42 @@ func (g *group) prefixes() [][]step {
 	return out
 }
 
+// replayFile re-executes the history of a replay file written by this check and prints what an observer sees.
+func replayFile(path string) {
+	b, err := os.ReadFile(path)
+	if err != nil {
+		ev.Harness("replay: %v", err)
+	}
+	var f struct {
+		Signature string
+		Replay    struct {
+			MaxBatchSize int `json:"max_batch_size"`
+			Compression  bool
+			Answers      []answer
+			History      []step
+		}
+	}
+	if err := json.Unmarshal(b, &f); err != nil {
+		ev.Harness("replay: %v", err)
+	}
+	calibrate()
+	w := execute(f.Replay.MaxBatchSize, f.Replay.Compression, f.Replay.Answers, f.Replay.History)
+	fmt.Printf("MaxBatchSize=%d compression=%v script=%v history=%v\n", f.Replay.MaxBatchSize, f.Replay.Compression, f.Replay.Answers, f.Replay.History)
+	fmt.Println(strings.Join(w.trace, "\n"))
+	if w.fail != nil {
+		fmt.Printf("VIOLATION %s :: %s\n", w.fail.Sig, w.fail.What)
+		os.Exit(1)
+	}
+	fmt.Println("no violation:", w.label())
+	os.Exit(0)
+}
+
 func main() {
+	for i, a := range os.Args {
+		if a == "--replay" && i+1 < len(os.Args) {
+			replayFile(os.Args[i+1])
+		}
+	}
 	r := ev.New("C26", "fault_enumeration")
 	groups := buildGroups(r)
 	if only := os.Getenv("C26_GROUP"); only != "" {
@@ -221,6 +257,21 @@ func main() {
 			}
 		}
 		groups = gs
+	}
+	if os.Getenv("C26_COUNT") != "" { // debugging aid: syntactic size of every group (upper bound: no idle pruning)
+		for _, g := range groups {
+			n := 0
+			var rec func(h []step)
+			rec = func(h []step) {
+				n++
+				for _, s := range g.enabled(h, false) {
+					rec(append(h[:len(h):len(h)], s))
+				}
+			}
+			rec(nil)
+			fmt.Printf("%-10s histories<=%d x Ms %d x scripts %d = %d\n", g.Name, n, len(g.Ms), len(g.Scripts), n*len(g.Ms)*len(g.Scripts))
+		}
+		os.Exit(0)
 	}
 	nshard := 16
 	r.Sharded(nshard, func(i, n int) {
@@ -234,6 +285,18 @@ func main() {
 		selfCheck()
 		x := &explorer{r: r, viol: map[string]*found{}}
 		job := 0
+		part := os.Getenv("C26_PART") // "", "e4" or "e3" (debugging aid)
+		if part == "" || part == "e3" {
+			// E3 part first (short): scenario k runs on shard k mod n
+			for k, sc := range concScenarios() {
+				if k%n == i && os.Getenv("C26_GROUP") == "" {
+					runConcurrent(r, sc, ev.Pick(r, 2, 3))
+				}
+			}
+		}
+		if part == "e3" {
+			return
+		}
 		for _, g := range groups {
 			pref := g.prefixes()
 			for _, m := range g.Ms {
@@ -265,13 +328,26 @@ func main() {
 	for _, g := range groups {
 		bounds = append(bounds, fmt.Sprintf("%s: MaxBatchSize %v, dests %v, sizes %v, ≤%d enqueues, ≤%d ticks, half-tick %v, %d scripts", g.Name, g.Ms, g.Dests, g.Sizes, g.MaxEnq, g.MaxAdv, g.Half, len(g.Scripts)))
 	}
+	bounds = append(bounds, fmt.Sprintf("E3: %d scenarios (MaxBatchSize 1..3 x 0..MaxBatchSize-1 stale events pending x {a,b same destination: EnqueueEvent(a) || EnqueueEvent(b) || dispatch-tick body; a,b different destinations: EnqueueEvent(a) || EnqueueEvent(b)}), preemption bound %d, then Stop()", len(concScenarios()), ev.Pick(r, 2, 3)))
+	if p := os.Getenv("C26_PART"); p != "" || os.Getenv("C26_GROUP") != "" { // debugging aids: never a complete run
+		r.Cap("debug run: C26_PART/C26_GROUP restricts the check")
+		r.Add("evaluations", 0)
+		r.Distinct("distinct_nontrivial", "(debug run)")
+	}
 	r.Set("bounds", bounds)
-	r.Set("rule", "every history of each group (all enqueue/advance/stop sequences within its bounds, advance pruned only on an observed-idle transmission) x every MaxBatchSize x every answer script (0 faults, every single fault at every position, every pair) is executed on the real started DirectTransmission; oracle R1-R6 at every quiescent instant")
-	r.Assume("a 'batch' is the set of events of one request; the same set requested again is a further attempt of that batch, allowed once after any 429/503/time-out answer (the statement's 'Retry-After under 60 s' qualifier is not used to forbid a retry after a longer Retry-After)")
+	r.Set("e3_preemption_bound_completed", ev.Pick(r, 2, 3))
+	r.Set("rule", "every history of each group (all enqueue/advance/stop sequences within its bounds, advance pruned only on an observed-idle transmission) x every MaxBatchSize x every answer script (0 faults, every single fault at every position, every pair) is executed on the real started DirectTransmission; oracle R1-R6 at every quiescent instant. E3 part: every schedule with <= 2 (quick) / 3 (thorough) preemptions of EnqueueEvent || EnqueueEvent || dispatch-tick body per scenario, exactly-once delivery and gauge checked after the real Stop()")
+	r.Assume("clause f: a 'batch' is the set of events of one request; the same set requested again is a further attempt of that batch. A second attempt is accepted after ANY 429/503/time-out answer: the statement's '(Retry-After under 60 s)' is read as describing when a retry happens, not as forbidding one after a longer Retry-After (59 vs 60 s, HTTP-date, absent, 0 are all exercised and reported in the f_* census, the only verdicts are 'never a third attempt' and 'no second attempt after any other answer')")
 	r.Assume("the statement does not say that a retry must happen, nor that a full batch is sent immediately: only the upper bounds (1.25 x BatchTimeout, Stop, two attempts) are judged")
-	r.Assume("'counted as an error' = the sum of libhoney_upstream_response_errors and _enqueue_errors grows by at least one per dropped oversize event")
-	r.Assume("serialized size of an event = size of its member of the batch array on the wire; the constant per-event overhead is measured once from the real encoder, sizes are then exact to the byte")
-	r.Assume("fake time moves in steps of BatchTimeout/8 or /4 while the dispatcher runs; retry sleeps therefore end at the next step at or after their wake-up time")
+	r.Assume("clause e is judged per event: every event is first requested within 1.25 x BatchTimeout of its own hand-in (implied by the batch-level wording, since no member is older than the batch's first event); 'dispatched' is observed as 'the request reached the network'")
+	r.Assume("clause e weakening: time during which an earlier request to the SAME destination waits out a 429/503 Retry-After back-off is not counted against the 1.25 x BatchTimeout of that destination's later events. The transmission sends the <=5 MB requests of one oversized internal batch one after the other, so the remainder waits behind the sleeping first part (observed: 5 x 1 MB, first request answered 429 -> the fifth event leaves 1 s later); the statement speaks about dispatching batches, not about server back-pressure")
+	r.Assume("clause b: 'counted as an error' = the sum of libhoney_upstream_response_errors and _enqueue_errors is at least the number of dropped oversize events once every event has an outcome (exact in the fault-free scripts); an oversize event 'has its outcome' once 1.25 x BatchTimeout have passed since its hand-in or Stop() has returned")
+	r.Assume("clause b/c: serialized size of an event = size of its member of the batch array on the wire (the statement's 'alone': without the array header); the constant per-event overhead is measured once from the real encoder, sizes are then exact to the byte. Request body size = the uncompressed MessagePack body; the 5 MB group runs without compression, so this is also the size on the wire there")
+	r.Assume("a request with zero events is not judged (it carries nobody's event)")
+	r.Assume("http.Client.Timeout (batchSendTimeout) is a wall-clock timer and is disabled; a time-out is a scripted round-trip error whose Timeout() is true")
+	r.Assume("fake time moves in steps of BatchTimeout/8 or /4 while the dispatcher runs; retry sleeps therefore end at the next step at or after their wake-up time. advance is not offered on an idle transmission (nothing pending, in flight or sleeping): such histories are time-shifted copies of explored ones")
+	r.Assume("destinations have well-formed API hosts (an unparsable APIHost cannot be addressed at all and is outside the statement)")
+	r.Assume("E3 part: scheduling points are the sync operations of package transmit (import rewrite); sends run on the real conc pool outside the scheduler and are joined by Stop() before the oracle reads. The tick body visits the batch map in Go map order, which the scheduler cannot own, so the scenarios with the tick thread use one destination (<=1 map key) and the two-destination scenarios run the two producers only")
 	r.Finish()
 }
 
